@@ -487,3 +487,63 @@ func DiffDeep(a, b []string) []string {
 	}
 	return d
 }
+
+// ---- walker-level state (astwalk) ----
+
+// WalkerState renders the scalar state (bools, ints, strings, lengths) of every value of a type declared in
+// checkers/internal/astwalk that is reachable from the checker's FileWalker: the walker itself and the
+// astwalk.WalkHandler embedded in its visitor. These are protocol flags (one-shot SkipChilds, ...): between two
+// files they must be back in the state they had right after construction.
+func WalkerState(c *linter.Checker) string {
+	v := reflect.ValueOf(c).Elem().FieldByName("fileWalker")
+	var out []string
+	seen := map[uintptr]bool{}
+	var rec func(v reflect.Value, depth int, path string)
+	rec = func(v reflect.Value, depth int, path string) {
+		if depth > 12 {
+			return
+		}
+		switch v.Kind() {
+		case reflect.Interface:
+			if !v.IsNil() {
+				rec(v.Elem(), depth+1, path)
+			}
+		case reflect.Ptr:
+			if v.IsNil() || seen[v.Pointer()] {
+				return
+			}
+			pp := v.Type().Elem().PkgPath()
+			if inputPkgs[pp] || strings.HasSuffix(pp, "go-critic/linter") {
+				return
+			}
+			seen[v.Pointer()] = true
+			rec(v.Elem(), depth+1, path)
+		case reflect.Struct:
+			t := v.Type()
+			isWalk := strings.HasSuffix(t.PkgPath(), "internal/astwalk")
+			for i := 0; i < v.NumField(); i++ {
+				f := v.Field(i)
+				name := path + t.Name() + "." + t.Field(i).Name
+				if isWalk {
+					switch f.Kind() {
+					case reflect.Bool:
+						out = append(out, fmt.Sprintf("%s=%v", name, f.Bool()))
+					case reflect.Int, reflect.Int8, reflect.Int16, reflect.Int32, reflect.Int64:
+						out = append(out, fmt.Sprintf("%s=%d", name, f.Int()))
+					case reflect.String:
+						out = append(out, fmt.Sprintf("%s=%q", name, f.String()))
+					case reflect.Slice, reflect.Map:
+						out = append(out, fmt.Sprintf("%s=len%d", name, f.Len()))
+					}
+				}
+				switch f.Kind() {
+				case reflect.Interface, reflect.Ptr, reflect.Struct:
+					rec(f, depth+1, path)
+				}
+			}
+		}
+	}
+	rec(v, 0, "")
+	sort.Strings(out)
+	return strings.Join(out, ";")
+}
